@@ -1,0 +1,277 @@
+//! Verification hook H1 (compiled only with `--cfg nervusdb_verif`): I/O step interposition.
+//!
+//! Every mutating file operation of the WAL and the pager calls [`step`] *before* it is
+//! performed.  The hook numbers the steps, logs them, and at a configured step number either
+//! returns an injected `io::Error` (fault mode: the operation is not performed, the process
+//! keeps running) or kills the process with `abort()` (crash mode: every step before it has
+//! been performed, this one and all later ones have not).
+//!
+//! For power-loss simulation the hook keeps an undo journal of everything written since the
+//! last successful sync of each file (pre-images of overwritten ranges, old file lengths, a
+//! backup of a renamed-over file).  On abort the journal is dumped next to the database; the
+//! parent process turns the surviving files (= what process death leaves in the page cache)
+//! into any power-loss image by undoing a chosen subset of the unsynced operations.
+//!
+//! With the cfg off this module does not exist and no call site is compiled.
+
+use std::fmt::Write as _;
+use std::io;
+use std::path::{Path, PathBuf};
+use std::sync::Mutex;
+
+#[derive(Clone, Copy, Debug, PartialEq, Eq)]
+pub enum Mode {
+    /// count and log only
+    Log,
+    /// step number `at` returns an injected io::Error (once)
+    Fault,
+    /// step number `at` calls `std::process::abort()` after dumping log + undo journal
+    Abort,
+}
+
+#[derive(Clone, Debug)]
+pub struct StepRec {
+    pub kind: &'static str,
+    pub file: String,
+    pub offset: u64,
+    pub len: u64,
+}
+
+#[derive(Debug)]
+enum Undo {
+    /// bytes `pre` were at `offset` before an unsynced write (shorter than `len` if the range reached beyond EOF)
+    Write { file: PathBuf, offset: u64, len: u64, pre: Vec<u8>, old_len: u64 },
+    /// file had length `old_len` before an unsynced set_len to `new_len`
+    Len { file: PathBuf, old_len: u64, new_len: u64 },
+    /// `to` was replaced by rename; its previous content is saved in `backup`
+    Rename { to: PathBuf, backup: PathBuf },
+}
+
+struct State {
+    enabled: bool,
+    mode: Mode,
+    at: u64,
+    counter: u64,
+    fired: bool,
+    log: Vec<StepRec>,
+    journal: Vec<Undo>,
+    track: bool,
+    dump_dir: Option<PathBuf>,
+}
+
+static STATE: Mutex<State> = Mutex::new(State {
+    enabled: false,
+    mode: Mode::Log,
+    at: u64::MAX,
+    counter: 0,
+    fired: false,
+    log: Vec::new(),
+    journal: Vec::new(),
+    track: false,
+    dump_dir: None,
+});
+
+fn lock() -> std::sync::MutexGuard<'static, State> {
+    STATE.lock().unwrap_or_else(|e| e.into_inner())
+}
+
+/// Start logging (and, with `track`, journaling for power-loss reconstruction).
+/// `dump_dir` receives `steps.log` and `unsynced.log` when the process is aborted.
+pub fn enable(track: bool, dump_dir: Option<&Path>) {
+    let mut s = lock();
+    s.enabled = true;
+    s.track = track;
+    s.dump_dir = dump_dir.map(|p| p.to_path_buf());
+}
+
+pub fn disable() {
+    let mut s = lock();
+    s.enabled = false;
+}
+
+/// Arm the hook: the step with number `at` (counted from the next [`reset_counter`], 0-based)
+/// fails (`Mode::Fault`) or kills the process (`Mode::Abort`).
+pub fn arm(mode: Mode, at: u64) {
+    let mut s = lock();
+    s.mode = mode;
+    s.at = at;
+    s.fired = false;
+}
+
+pub fn disarm() {
+    let mut s = lock();
+    s.mode = Mode::Log;
+    s.at = u64::MAX;
+}
+
+/// Restart step numbering and clear the step log (the undo journal is kept).
+pub fn reset_counter() {
+    let mut s = lock();
+    s.counter = 0;
+    s.log.clear();
+}
+
+pub fn fired() -> bool {
+    lock().fired
+}
+
+pub fn take_log() -> Vec<StepRec> {
+    std::mem::take(&mut lock().log)
+}
+
+/// number of journal entries (unsynced operations) per kind: (page/wal writes+len changes, renames)
+pub fn pending() -> (usize, usize) {
+    let s = lock();
+    let r = s.journal.iter().filter(|u| matches!(u, Undo::Rename { .. })).count();
+    (s.journal.len() - r, r)
+}
+
+fn file_len(path: &Path) -> u64 {
+    std::fs::metadata(path).map(|m| m.len()).unwrap_or(0)
+}
+
+fn read_range(path: &Path, offset: u64, len: u64) -> Vec<u8> {
+    use std::io::{Read, Seek, SeekFrom};
+    let mut out = Vec::new();
+    if let Ok(mut f) = std::fs::File::open(path) {
+        if f.seek(SeekFrom::Start(offset)).is_ok() {
+            let _ = f.take(len).read_to_end(&mut out);
+        }
+    }
+    out
+}
+
+fn hex(bs: &[u8]) -> String {
+    let mut s = String::with_capacity(bs.len() * 2);
+    for b in bs {
+        let _ = write!(s, "{:02x}", b);
+    }
+    s
+}
+
+fn dump(s: &State) {
+    let Some(dir) = s.dump_dir.as_ref() else { return };
+    let mut steps = String::new();
+    for r in &s.log {
+        let _ = writeln!(steps, "{} {} {} {}", r.kind, r.file, r.offset, r.len);
+    }
+    let _ = std::fs::write(dir.join("steps.log"), steps);
+    let mut j = String::new();
+    for u in &s.journal {
+        match u {
+            Undo::Write { file, offset, len, pre, old_len } => {
+                let _ = writeln!(
+                    j,
+                    "W {} {} {} {} {}",
+                    file.display(),
+                    offset,
+                    len,
+                    old_len,
+                    if pre.is_empty() { "-".to_string() } else { hex(pre) }
+                );
+            }
+            Undo::Len { file, old_len, new_len } => {
+                let _ = writeln!(j, "L {} {} {}", file.display(), old_len, new_len);
+            }
+            Undo::Rename { to, backup } => {
+                let _ = writeln!(j, "R {} {}", to.display(), backup.display());
+            }
+        }
+    }
+    let _ = std::fs::write(dir.join("unsynced.log"), j);
+}
+
+fn short(path: &Path) -> String {
+    let name = path.file_name().map(|n| n.to_string_lossy().to_string()).unwrap_or_default();
+    if name.contains(".tmp.") {
+        "tmp".to_string()
+    } else if let Some(ext) = path.extension() {
+        ext.to_string_lossy().to_string()
+    } else {
+        name
+    }
+}
+
+/// Called immediately before a mutating I/O operation.
+///
+/// kinds: `wal_write` `wal_sync` `tmp_create` `tmp_write` `tmp_sync` `rename`
+///        `page_write` `set_len` `pager_sync`
+pub fn step(kind: &'static str, file: &Path, offset: u64, len: u64) -> io::Result<()> {
+    let mut s = lock();
+    if !s.enabled {
+        return Ok(());
+    }
+    let n = s.counter;
+    s.counter += 1;
+    if n == s.at && !s.fired {
+        match s.mode {
+            Mode::Log => {}
+            Mode::Fault => {
+                s.fired = true;
+                s.log.push(StepRec { kind: "FAULT", file: short(file), offset, len });
+                return Err(io::Error::other("verif: injected I/O error"));
+            }
+            Mode::Abort => {
+                s.fired = true;
+                s.log.push(StepRec { kind: "ABORT", file: short(file), offset, len });
+                dump(&s);
+                std::process::abort();
+            }
+        }
+    }
+    s.log.push(StepRec { kind, file: short(file), offset, len });
+    if s.track {
+        match kind {
+            "wal_write" | "page_write" => {
+                let old_len = file_len(file);
+                let pre = read_range(file, offset, len);
+                s.journal.push(Undo::Write { file: file.to_path_buf(), offset, len, pre, old_len });
+            }
+            "set_len" => {
+                let old_len = file_len(file);
+                s.journal.push(Undo::Len { file: file.to_path_buf(), old_len, new_len: offset });
+            }
+            _ => {}
+        }
+    }
+    Ok(())
+}
+
+/// Called after a successful `sync_data` of `file`: everything journaled for it is durable.
+/// (Directory entries — creation, rename — are taken to become durable with the first
+/// completed sync of the file they name; see the verification notes.)
+pub fn synced(file: &Path) {
+    let mut s = lock();
+    if !s.enabled || !s.track {
+        return;
+    }
+    s.journal.retain(|u| match u {
+        Undo::Write { file: f, .. } | Undo::Len { file: f, .. } => f != file,
+        Undo::Rename { to, backup } => {
+            if to == file {
+                let _ = std::fs::remove_file(backup);
+                false
+            } else {
+                true
+            }
+        }
+    });
+}
+
+/// Called immediately before `rename(from, to)` (after the `rename` step was admitted):
+/// keeps a copy of the file that is about to be replaced.
+pub fn before_rename(from: &Path, to: &Path) {
+    let mut s = lock();
+    if !s.enabled || !s.track {
+        return;
+    }
+    let backup = to.with_extension("verif-prerename");
+    let _ = std::fs::copy(to, &backup);
+    // The temp file was synced before the rename (no journal entries left for it); the
+    // replaced file's own unsynced tail, if any, is taken as part of the backup.
+    s.journal.retain(|u| match u {
+        Undo::Write { file, .. } | Undo::Len { file, .. } => file != to && file != from,
+        _ => true,
+    });
+    s.journal.push(Undo::Rename { to: to.to_path_buf(), backup });
+}
